@@ -321,6 +321,20 @@ carquet_status_t carquet_page_writer_add_values(
         }
     }
 
+    if (writer->max_def_level > 0 && !def_levels && num_values > 0) {
+        /* NULL def_levels means "all values defined" (see carquet.h). The
+         * page must still carry a level block, because readers derive its
+         * presence from the schema, not from the writer's call. */
+        int16_t* all_defined = (int16_t*)carquet_buffer_advance(
+            &writer->def_levels_buffer, (size_t)num_values * sizeof(int16_t));
+        if (!all_defined) {
+            return CARQUET_ERROR_OUT_OF_MEMORY;
+        }
+        for (int64_t i = 0; i < num_values; i++) {
+            all_defined[i] = writer->max_def_level;
+        }
+    }
+
     if (writer->max_rep_level > 0 && rep_levels && num_values > 0) {
         carquet_status_t lvl_status = carquet_buffer_append(
             &writer->rep_levels_buffer, rep_levels,
